@@ -183,6 +183,76 @@ def run_both(code, env=None, snapshots=True, step_factor=50, keep_objects=False,
     return out
 
 
+def env_kwargs(env):
+    """Interpreter.run_code keyword arguments for a model environment."""
+    kw = {}
+    for k in ENV_FIELDS:
+        if k in env:
+            kw[k] = env[k]
+    if 'sender' in env:
+        kw['sender'] = P.address_to_str(env['sender'])
+    if 'source' in env:
+        kw['source'] = P.address_to_str(env['source'])
+    if 'self_address' in env:
+        kw['address'] = P.address_to_str(env['self_address'])
+    if 'chain_id' in env:
+        kw['chain_id'] = P.render(env['chain_id'], T.CHAIN_ID, 'readable')['string']
+    if 'voting_power' in env:
+        kw['voting_power'] = {P.kh_to_b58(k): v for k, v in env['voting_power'].items()}
+    return kw
+
+
+class _Res:
+    def __init__(self, error):
+        self.error = error
+
+
+def run_both_contract(code, result_types, env=None, mode='values'):
+    """The same program as a contract through Interpreter.run_code: parameter unit, storage = comb of the program's
+    results; code = DROP ; <program> ; PAIR n ; NIL operation ; PAIR. Lock-step on the hook trace (the hook sits on the
+    instruction classes, so it also sees run_code), plus the returned storage parsed back by the model."""
+    from pytezos.michelson.repl import Interpreter
+    out = Outcome()
+    n = len(result_types)
+    st = result_types[0] if n == 1 else T.pair(*result_types)
+    if not T.storable(st) or T.contains(st, 'lambda') and False:
+        out.kind, out.detail = 'unsupported', 'storage type not storable'
+        return out
+    try:
+        init = I.default_value(st)
+    except KeyError:
+        out.kind, out.detail = 'unsupported', 'no default value for the storage type'
+        return out
+    body = [{'prim': 'DROP'}] + list(code) + ([{'prim': 'PAIR', 'args': [{'int': str(n)}]}] if n > 1 else []) + \
+           [{'prim': 'NIL', 'args': [{'prim': 'operation'}]}, {'prim': 'PAIR'}]
+    script = [{'prim': 'parameter', 'args': [{'prim': 'unit'}]}, {'prim': 'storage', 'args': [T.to_micheline(st)]}, {'prim': 'code', 'args': [body]}]
+    r = I.run(body, [(T.pair(T.UNIT, st), ((), init))], env)
+    out.model = r
+    if r.kind in ('unsupported', 'model-error'):
+        out.kind, out.detail = ('unsupported' if r.kind == 'unsupported' else 'inconclusive'), r.detail
+        return out
+    with H.monitoring(step_limit=50 * max(len(r.events), 20) + 200) as mon:
+        try:
+            ops, storage, lazy_diff, stdout, error = Interpreter.run_code(
+                parameter={'prim': 'Unit'}, storage=P.render(init, st, 'readable'), script=script, **env_kwargs(env or {}))
+        except H.HarnessAbort:
+            out.kind, out.mon, out.sig, out.detail = 'violation', mon, 'runaway', 'run_code does not terminate'
+            return out
+    out.mon = mon
+    judge(out, r, mon, _Res(error), None, mode)
+    if out.kind == 'agree' and r.kind == 'ok' and error is None:
+        try:
+            got = P.parse(storage, st)
+        except Exception as e:
+            out.kind, out.sig, out.detail = 'violation', 'run_code|storage-unreadable', '%r: %r' % (storage, e)
+            return out
+        want = r.stack[0][1][1]
+        if norm_value(got, st) != norm_value(want, st):
+            out.kind, out.sig = 'violation', 'run_code|returned-storage-differs'
+            out.detail = 'storage %r, expected %r' % (got, want)
+    return out
+
+
 RUNTIME_PRIMS = {'ADD', 'SUB', 'MUL', 'LSL', 'LSR'}
 
 
